@@ -5,7 +5,7 @@ import kernel as K
 PROPERTY = "C06"
 LEVEL = "model_checking"
 BUDGET = {"quick": 240, "thorough": 2400}
-BOUNDS = {"quick": "kernel: 4 unquoters x all raw texts of <= 3 code points + escape-run skeletons (6 hex holes) x 2 backends; U(Q(t)) == t for <= 2 code points",
+BOUNDS = {"quick": "kernel: 4 unquoters x all raw texts of <= 3 code points + escape-run skeletons (4 hex holes + 1 free) x 2 backends; U(Q(t)) == t for <= 2 code points",
           "thorough": "kernel: raw texts of <= 4 code points + escape-run skeletons (8 hex holes); round trip <= 3 code points"}
 ASSUMPTIONS = ["lone surrogates are excluded from the read-back clause (the property excepts them)",
                "texts longer than the bound are outside the claim"]
@@ -33,7 +33,9 @@ def families(tier):
     for name in K.UNQUOTERS:
         for k in range(1, n + 1):
             fams.append(Family("kernel/%s/n=%d" % (name, k), K.h_unquote, dict(name=name, n=k), backends=("py", "c")))
-        for i, sk in enumerate(RUNS if not q else RUNS[:4]):
+        for i, sk in enumerate(RUNS):
+            if q and i not in (0, 2, 3):
+                continue
             fams.append(Family("kernel/%s/run-%d" % (name, i), K.h_unquote, dict(name=name, n=0, skeleton=sk), backends=("py", "c")))
     for qn, un in K.PAIRS:
         for k in range(1, (2 if q else 3) + 1):
